@@ -929,6 +929,7 @@ class BptkServer(Flask):
                     else:
                         yield '{"error": "no data was returned from run_step"}'
                 yield "]"
+                instance.unlock()
             except:
                 instance.unlock()
             if self._external_state_adapter != None:
